@@ -6,9 +6,12 @@ import (
 	"strings"
 	"time"
 
+	"github.com/spf13/pflag"
+
 	"github.com/form3tech-oss/f1/v2/internal/trigger/api"
 	"github.com/form3tech-oss/f1/v2/internal/trigger/constant"
 	"github.com/form3tech-oss/f1/v2/internal/trigger/rate"
+	"github.com/form3tech-oss/f1/v2/internal/trigger/staged"
 )
 
 type scripted struct {
@@ -57,31 +60,36 @@ func init() {
 		}
 		return fmt.Sprintf("%d %d %s", int64(iv), rates.calls, intsTok(outs))
 	})
-	// pipeline <rate hex> <jn> <jd> <dist hex> <cycles> — the composed rate function of a constant trigger as the
-	// builders assemble it (ParseRate -> WithJitter(jn/jd percent) -> NewDistribution), called for <cycles> whole
-	// cycles -> `<intervalNs> <calls> <total> <min> <max>` | err
+	// pipeline <rate hex> <jn> <jd> <dist hex> <cycles> [mode] — the composed rate function exactly as the trigger
+	// *builder* of the mode assembles it from its flags (constant: --rate; staged: a plateau of the same rate via
+	// --stages/--iterationFrequency; both with --jitter and --distribution), called for <cycles> whole cycles
+	// -> `<intervalNs> <calls> <total> <min> <max> <unevenCycles>` | err
 	register("pipeline", func(a []string) string {
-		jit := float64(atoi(a[1])) / float64(atoi(a[2]))
-		r, err := constant.CalculateConstantRate(jit, unhex(a[0]), unhex(a[3]))
-		if err != nil {
-			return "err"
+		mode := "constant"
+		if len(a) > 5 {
+			mode = a[5]
 		}
 		cnt, unit, err := rate.ParseRate(unhex(a[0]))
-		if err != nil {
+		rateFn, berr := builtRate(mode, unhex(a[0]), cnt, unit, err, jitterText(a[1], a[2]), unhex(a[3]))
+		if berr != nil || err != nil {
 			return "err"
 		}
-		_ = cnt
+		iv, _, derr := api.NewDistribution(api.DistributionType(unhex(a[3])), unit, func(time.Time) int { return 0 }, nil)
+		if derr != nil {
+			return "err"
+		}
 		n := 1
-		if r.IterationDuration < unit {
-			n = int(unit / r.IterationDuration)
+		if iv < unit {
+			n = int(unit / iv)
 		}
 		cycles := atoi(a[4])
-		total, mn, mx := 0, 0, 0
+		total, mn, mx, uneven := 0, 0, 0, 0
 		t := time.Unix(1700000000, 0)
 		calls := cycles * n
+		cmn, cmx := 0, 0
 		for i := 0; i < calls; i++ {
-			v := r.Rate(t)
-			t = t.Add(r.IterationDuration)
+			v := rateFn(t)
+			t = t.Add(iv)
 			total += v
 			if i == 0 || v < mn {
 				mn = v
@@ -89,8 +97,36 @@ func init() {
 			if i == 0 || v > mx {
 				mx = v
 			}
+			if i%n == 0 || v < cmn {
+				cmn = v
+			}
+			if i%n == 0 || v > cmx {
+				cmx = v
+			}
+			if i%n == n-1 && cmx-cmn > 1 {
+				uneven++
+			}
 		}
-		return fmt.Sprintf("%d %d %d %d %d", int64(r.IterationDuration), calls, total, mn, mx)
+		return fmt.Sprintf("%d %d %d %d %d %d", int64(iv), calls, total, mn, mx, uneven)
+	})
+	// bjitter <mode> <jn> <jd> <n> <pattern> — like `jitter`, but the jittered rate function is the one the mode's
+	// builder assembles from `--jitter <jn/jd> --distribution none` and a constant rate (pattern = one value)
+	register("bjitter", func(a []string) string {
+		pat := parseInts(a[4])
+		r := strconv.Itoa(pat[0]) + "/s"
+		cnt, unit, err := rate.ParseRate(r)
+		fn, berr := builtRate(a[0], r, cnt, unit, err, jitterText(a[1], a[2]), "none")
+		if berr != nil {
+			return "err"
+		}
+		n := atoi(a[3])
+		outs := make([]int, n)
+		t := time.Unix(1700000000, 0)
+		for i := 0; i < n; i++ {
+			outs[i] = fn(t)
+			t = t.Add(unit)
+		}
+		return intsTok(outs)
 	})
 	// distsum regular <intervalNs> <cycles> <rates>  ->  <evals> <sum:min:max,…>
 	register("distsum", func(a []string) string {
@@ -122,4 +158,40 @@ func init() {
 		_ = iv
 		return fmt.Sprintf("%d %s", rates.calls, strings.Join(toks, ","))
 	})
+}
+
+func jitterText(jn, jd string) string {
+	return strconv.FormatFloat(float64(atoi(jn))/float64(atoi(jd)), 'f', -1, 64)
+}
+
+// builtRate runs the real builder of a mode on a command line and returns the rate function it assembled
+// (api.Trigger.DryRun, which every rate-driven builder sets to the function it also hands to the ticker loop).
+func builtRate(mode, rateStr string, cnt int, unit time.Duration, perr error, jitter, dist string) (api.RateFunction, error) {
+	var b api.Builder
+	var args []string
+	switch mode {
+	case "constant":
+		b = constant.Rate()
+		args = []string{"--rate", rateStr}
+	case "staged":
+		if perr != nil {
+			return nil, perr
+		}
+		b = staged.Rate()
+		args = []string{"--stages", fmt.Sprintf("0s:%d,1000000s:%d", cnt, cnt), "--iterationFrequency", unit.String()}
+	default:
+		return nil, fmt.Errorf("mode")
+	}
+	args = append(args, "--jitter", jitter, "--distribution", dist)
+	fs := pflag.NewFlagSet("verif", pflag.ContinueOnError)
+	fs.AddFlagSet(b.Flags)
+	fs.Duration("max-duration", time.Second, "")
+	if err := fs.Parse(args); err != nil {
+		return nil, err
+	}
+	trig, err := b.New(fs)
+	if err != nil {
+		return nil, err
+	}
+	return trig.DryRun, nil
 }
